@@ -51,7 +51,9 @@ func (u *memoryManagementUnit) getFromL3(addrs []int32) ([]int8, bool, bool) {
 				}
 			}
 
-			u.pendings = append(u.pendings, [2]int32{addr, addr + l3CacheLineSize + 1})
+			// The line is fetched, and the pending entry removed, with the first
+			// address of the access
+			u.pendings = append(u.pendings, [2]int32{addrs[0], addrs[0] + l3CacheLineSize + 1})
 			return nil, false, false
 		}
 		memory = append(memory, v)
